@@ -166,7 +166,8 @@ def make_cases(ctx, langs):
 
 def describe(c):
     return {"call": "DateDataParser(%s, settings=%r).get_date_data(%r)" % (
-        ", ".join("%s=%r" % kv for kv in c["kw"].items()), c["settings"], c["s"]), "clause": c["clause"]}
+        ", ".join("%s=%r" % kv for kv in c["kw"].items()), c["settings"], c["s"]), "clause": c["clause"],
+        "parser_used_through": {"pickle": "pickle.loads(pickle.dumps(parser))", "deepcopy": "copy.deepcopy(parser)", "copy": "copy.copy(parser)"}.get(c.get("copy"), "itself")}
 
 
 def run(ctx):
@@ -194,6 +195,22 @@ def run(ctx):
     def target(i):
         return (0, repr(sorted(cases[i]["kw"].items())), cases[i]["explicit"]) if twin(i) else (1, "", False)
     results = core.run_cases_prebuilt(ctx, cases, lambda i: not ctx.replay and not cases[i].get("poison") and (i % 5 == 0 or twin(i)), size=4, key=target)
+    # ---- the parser handed on as a copy (pickled for a worker process, deep-copied into a pool): the explicit order stays
+    # with it.  Each case in an interpreter of its own (copying a parser has side effects on the process on this tree)
+    if not ctx.replay:
+        rng = ctx.rng
+        cp = []
+        for _ in range(32 if ctx.quick() else 300):
+            o = rng.choice(ORDERS)
+            y, m, d = rng.choice([(2020, 2, 3), (2015, 11, 10), (1999, 12, 11), (2024, 5, 6)])
+            kw = rng.choice([{"languages": ["fr"]}, {"languages": ["en"]}, {"locales": ["en-AU"]}, {"languages": ["ja"]}, {"languages": ["de"]}, {"locales": ["fr-CA"]}])
+            sep = rng.choice(["-", "/", "."])
+            f = fields(o, y, m, d, True)
+            cp.append({"clause": "explicit-copied", "order": o, "f": f, "sep": sep, "tm": None, "kw": kw, "explicit": True, "plo": True, "locorder": "",
+                       "s": render(f, sep, None), "settings": {"RELATIVE_BASE": BASE, "DATE_ORDER": o}, "api": "ddp", "probe": False,
+                       "copy": rng.choice(["pickle", "deepcopy", "copy"])})
+        cases += cp
+        results += core.run_fresh(ctx, "harness.lib", "call_parse", cp)
     records = []
     nabs = 0
     for i, (c, r) in enumerate(zip(cases, results)):
